@@ -158,3 +158,10 @@ mod tests {
         r.unwrap();
     }
 }
+
+// verification hook (guard: --cfg ipa_verif)
+#[cfg(all(test, ipa_verif))]
+#[allow(warnings, clippy::all, clippy::pedantic)]
+pub(crate) mod verif {
+    include!(concat!(env!("IPA_VERIF_DIR"), "/h8_net.rs"));
+}
